@@ -197,7 +197,7 @@ class Interp:
             'datetime.datetime', 'datetime.timedelta', 'datetime.date',
             'datetime.timezone', 'fractions.Fraction', 'decimal.Decimal',
             'math.isclose', 'encodings.normalize_encoding',
-            'urllib.parse.unquote'}
+            'urllib.parse.unquote', 'int.from_bytes'}
         self.on_method = None       # hook(term, name, args, kwargs)
         self.stubs = {}             # in-repo qualname -> behaviour
         self.on_yield = None        # hook(interp, value) for generators
